@@ -12,9 +12,17 @@ SECTION_SCHEMA = {"fluid": "fluid", "grout": "grout", "soil": "soil", "pipe": "p
                   "geometric_constraints": "geometric_near_square", "design": "design"}
 
 
-def base_input():
+COAXIAL_PIPE = {"inner_pipe_d_in": 0.0442, "inner_pipe_d_out": 0.050, "outer_pipe_d_in": 0.0974, "outer_pipe_d_out": 0.11, "roughness": 1e-06, "conductivity_inner": 0.4,
+                "conductivity_outer": 0.4, "rho_cp": 1542000, "arrangement": "COAXIAL"}
+
+
+def base_input(base=None):
     from contracts.realruns import synth_loads
 
+    if base == "coaxial":
+        doc = base_input()
+        doc["pipe"] = dict(COAXIAL_PIPE)
+        return doc
     return {"version": "1.5", "fluid": {"fluid_name": "WATER", "concentration_percent": 0.0, "temperature": 20},
             "grout": {"conductivity": 1.0, "rho_cp": 3901000}, "soil": {"conductivity": 2.0, "rho_cp": 2343493, "undisturbed_temp": 18.3},
             "pipe": {"inner_diameter": 0.03404, "outer_diameter": 0.04216, "shank_spacing": 0.01856, "roughness": 1e-06, "conductivity": 0.4, "rho_cp": 1542000, "arrangement": "SINGLEUTUBE"},
@@ -24,18 +32,20 @@ def base_input():
             "loads": {"ground_loads": synth_loads("balanced", 2.0e4)}}
 
 
-def all_corruptions(repo):
+def all_corruptions(repo, base=None):
     """every single-field corruption of the base input that the tool's own schemas reject (by construction of the schema keywords)"""
     import json
     import os
 
     out = []
     for sec, sch in SECTION_SCHEMA.items():
+        if base == "coaxial" and sec == "pipe":
+            sch = "pipe_coaxial"
         schema = json.load(open(os.path.join(repo, "ghedesigner", "schemas", sch + ".schema.json")))
         for key in schema.get("required", []):
             out.append({"section": sec, "key": key, "how": "missing"})
         for key, ps in schema.get("properties", {}).items():
-            if key not in base_input()[sec]:
+            if key not in base_input(base)[sec]:
                 continue
             if ps.get("type") == "number":
                 out.append({"section": sec, "key": key, "how": "wrong-type"})
@@ -70,7 +80,7 @@ def apply_corruption(doc, c):
     elif c["how"] in ("below-minimum", "above-maximum"):
         doc[c["section"]][c["key"]] = c["value"]
     elif c["how"] == "unknown-enum":
-        doc[c["section"]][c["key"]] = "NO_SUCH_VALUE"
+        doc[c["section"]][c["key"]] = c.get("value", "NO_SUCH_VALUE")
     elif c["how"] == "loads-without-list":  # passes the tool's schemas (loads is only required to be an object); the loader cannot use it
         doc["loads"] = {}
     elif c["how"] == "lower-case":
@@ -101,7 +111,7 @@ def _cli_check(a):
     repo = os.environ.get("VERIF_REPO", "/repo")
     tmp = tempfile.mkdtemp(prefix="c18_", dir=os.environ.get("VERIF_SCRATCH", None))
     try:
-        doc = base_input()
+        doc = base_input(a.get("base"))
         c = a.get("corruption")
         if c:
             doc = apply_corruption(doc, c)
@@ -158,15 +168,19 @@ def _cli_gen(rng):
              {"mode": "validate-only", "corruption": {"section": "simulation", "key": "num_months", "how": "missing"}},  # leaves "simulation": {}
              {"mode": "run", "corruption": {"how": "loads-empty-list"}},
              {"mode": "validate-only", "corruption": {"section": "pipe", "key": None, "how": "section-empty"}},
-             {"mode": "run", "corruption": {"section": "borehole", "key": None, "how": "section-wrong-type", "value": None}}]
+             {"mode": "run", "corruption": {"section": "borehole", "key": None, "how": "section-wrong-type", "value": None}},
+             {"mode": "validate-only", "base": "coaxial", "corruption": None},
+             {"mode": "validate-only", "base": "coaxial", "corruption": {"section": "pipe", "key": "arrangement", "how": "unknown-enum", "value": "COAX"}},  # unknown name on coaxial fields
+             {"mode": "validate-only", "base": "coaxial", "corruption": {"section": "pipe", "key": "outer_pipe_d_out", "how": "missing"}}]
     if k < len(fixed):
         return fixed[k]
-    cs = all_corruptions(os.environ.get("VERIF_REPO", "/repo"))
-    return {"mode": rng.choice(["validate-only", "validate-only", "run"]), "corruption": cs[rng.randrange(len(cs))]}
+    base = "coaxial" if rng.random() < 0.3 else None
+    cs = all_corruptions(os.environ.get("VERIF_REPO", "/repo"), base)
+    return {"mode": rng.choice(["validate-only", "validate-only", "run"]), "base": base, "corruption": cs[rng.randrange(len(cs))]}
 
 
 native(f"{M_}:run_manager_from_cli", _cli_check, _cli_gen, None,
-       bound="the real entry point (subprocess) on a valid near-square input and on its single-field corruptions (every required key missing, numbers replaced by strings, values outside minimum/maximum, unknown enum/const, missing sections, sections emptied to {} or replaced by null / [] / a scalar) x {--validate-only, full run}; inputs that pass the schemas but carry no usable loads (no list, empty list); unsupported --convert; missing output directory; names in lower/title case")
+       bound="the real entry point (subprocess) on a valid near-square input (single U-tube or coaxial pipe) and on its single-field corruptions (every required key missing, numbers replaced by strings, values outside minimum/maximum, unknown enum/const, missing sections, sections emptied to {} or replaced by null / [] / a scalar) x {--validate-only, full run}; inputs that pass the schemas but carry no usable loads (no list, empty list); unsupported --convert; missing output directory; names in lower/title case")
 
 
 # ---- deductive part: the status logic of the command line -----------------------------------------------------------------------
@@ -201,9 +215,12 @@ def _status_contract(convert_name, convert_shape, outdir_name, outdir_shape):
             ("invalid-input-gives-nonzero", Implies(And(VALIDF(pid) != 0, Or(vo, And(conv_none, not out_none))), E.result != 0)),
             ("unsupported-convert-gives-nonzero", Implies(And(Not(vo), convert_name == "other"), E.result == 1)),
             ("missing-output-directory-gives-nonzero", Implies(And(Not(vo), conv_none, out_none), E.result == 1)),
+            # the operating system keeps the low 8 bits of the status handed to exit(): a non-zero status must stay non-zero
+            ("nonzero-status-survives-the-8-bit-exit-code", And(E.result >= 0, Implies(E.result != 0, E.result % 256 != 0))),
         ]
 
-    names = ["zero-only-when-valid-or-written", "invalid-input-gives-nonzero", "unsupported-convert-gives-nonzero", "missing-output-directory-gives-nonzero"]
+    names = ["zero-only-when-valid-or-written", "invalid-input-gives-nonzero", "unsupported-convert-gives-nonzero", "missing-output-directory-gives-nonzero",
+             "nonzero-status-survives-the-8-bit-exit-code"]
     return contract(f"{M_}:_run_manager_from_cli_status",
                     dict(input_path=PathS, output_directory=outdir_shape, validate_only=Bool, convert=convert_shape),
                     name=f"{M_}:_run_manager_from_cli_status#convert-{convert_name}-outdir-{outdir_name}",
@@ -276,3 +293,69 @@ for _vn, _res in (("with-results", ObjOf(_OM)), ("without-results", NoneT())):
              ensures=[("returns-normally-only-when-there-were-results-to-write", lambda E: not (E.old.self.results is None))],
              returns=NoneT(), **({"options": {"no_normal_return": True}} if _vn == "without-results" else {})).applies = lambda env: False
     OUTPUT_METHODS.append(_n)
+
+
+# ---- the section validators: verdict 0/1 per section, the schema is chosen by the (upper-cased) name, unknown names are refused -------------------------
+import zlib as _zlib  # noqa: E402
+
+SCHEMA_OK = z3.Function("SCHEMA_ACCEPTS", z3.IntSort(), z3.IntSort(), z3.BoolSort())  # (schema file, instance) -> jsonschema.validate does not raise (A-DET)
+
+
+def _sid(name):
+    return _zlib.crc32(name.encode())
+
+
+contract("jsonschema:validate", dict(instance=OpaqueOf("json", id=Int), schema=OpaqueOf("json", id=Int)), name="jsonschema:validate#abstract",
+         raises={"ValidationError": lambda E: Not(SCHEMA_OK(E.schema.id, E.instance.id))}, ensures=[("accepted", lambda E: SCHEMA_OK(E.schema.id, E.instance.id))], returns=NoneT(),
+         notes="ASSUMED (external): raises ValidationError exactly when the instance does not satisfy the schema; exercised by the bounded runs of the real command line")
+VALIDATORS = []
+SCHEMA_VERDICT = z3.Function("SCHEMA_ACCEPTS_THE_INSTANCE", z3.IntSort(), z3.BoolSort())  # schema file -> jsonschema accepts this activation's instance (A-DET)
+contract(f"{V_}:validate_schema_instance", dict(schema_file_name=OpaqueOf("str"), instance=OpaqueOf("json"), error_msg=OpaqueOf("str")),
+         name=f"{V_}:validate_schema_instance#caller",
+         ensures=[("verdict-of-that-schema", lambda E: E.result == If(SCHEMA_VERDICT(_sid(E.schema_file_name)), 0, 1))], returns=Int,
+         notes="caller view of the body verified below: 0 when jsonschema accepts the instance under the named schema file, 1 otherwise").applies = lambda env: isinstance(env.get("schema_file_name"), str)
+
+_PLAIN = {"validate_file_structure": "file_structure.schema.json", "validate_grout": "grout.schema.json", "validate_soil": "soil.schema.json", "validate_borehole": "borehole.schema.json"}
+for _vn, _file in _PLAIN.items():
+    _n = f"{V_}:{_vn}#body"
+    contract(f"{V_}:{_vn}", dict(instance=OpaqueOf("json")), name=_n,
+             ensures=[("verdict-of-its-schema", (lambda E, _file=_file: E.result == If(SCHEMA_VERDICT(_sid(_file)), 0, 1)))], returns=Int).applies = lambda env: False
+    VALIDATORS.append(_n)
+_NAMED = {"validate_fluid": ("fluid_name", "fluid.schema.json", ("water", "Water", "PROPYLENEGLYCOL")),
+          "validate_design": ("flow_type", "design.schema.json", ("borehole", "System", "SYSTEM")),
+          "validate_simulation": ("timestep", "simulation.schema.json", ("hybrid", "Hourly", "HYBRID"))}
+for _vn, (_key, _file, _spellings) in _NAMED.items():
+    for _sp in _spellings:
+        _n = f"{V_}:{_vn}#body-{_sp}"
+        contract(f"{V_}:{_vn}", dict(instance=DictOf(**{_key: Const(_sp), "other_keys": OpaqueOf("json")})), name=_n,
+                 ensures=[("name-upper-cased-then-verdict-of-its-schema", (lambda E, _file=_file, _key=_key, _sp=_sp: And(E.instance[_key] == _sp.upper(), E.result == If(SCHEMA_VERDICT(_sid(_file)), 0, 1))))],
+                 assigns=writes("instance[]"), returns=Int).applies = lambda env: False
+        VALIDATORS.append(_n)
+_n = f"{V_}:validate_simulation#body-without-timestep"
+contract(f"{V_}:validate_simulation", dict(instance=DictOf(num_months=Int)), name=_n,
+         ensures=[("verdict-of-its-schema", lambda E: E.result == If(SCHEMA_VERDICT(_sid("simulation.schema.json")), 0, 1))], returns=Int).applies = lambda env: False
+VALIDATORS.append(_n)
+_PIPE_SCHEMA = {"SINGLEUTUBE": "pipe_single_double_u_tube.schema.json", "DOUBLEUTUBESERIES": "pipe_single_double_u_tube.schema.json",
+                "DOUBLEUTUBEPARALLEL": "pipe_single_double_u_tube.schema.json", "COAXIAL": "pipe_coaxial.schema.json"}
+_GEOM_SCHEMA = {"BIRECTANGLE": "geometric_bi_rectangle.schema.json", "BIRECTANGLECONSTRAINED": "geometric_bi_rectangle_constrained.schema.json",
+                "BIZONEDRECTANGLE": "geometric_bi_zoned_rectangle.schema.json", "NEARSQUARE": "geometric_near_square.schema.json", "RECTANGLE": "geometric_rectangle.schema.json",
+                "ROWWISE": "geometric_rowwise.schema.json"}
+for _vn, _key, _table in (("validate_pipe", "arrangement", _PIPE_SCHEMA), ("validate_geometric", "method", _GEOM_SCHEMA)):
+    for _nm, _file in _table.items():
+        for _sp in (_nm, _nm.lower(), _nm.title()):
+            _n = f"{V_}:{_vn}#body-{_sp}"
+            contract(f"{V_}:{_vn}", dict(instance=DictOf(**{_key: Const(_sp), "other_keys": OpaqueOf("json")})), name=_n,
+                     ensures=[("name-recognised-in-any-letter-case-and-checked-against-its-own-schema",
+                               (lambda E, _file=_file, _key=_key, _nm=_nm: And(E.instance[_key] == _nm, E.result == If(SCHEMA_VERDICT(_sid(_file)), 0, 1))))],
+                     assigns=writes("instance[]"), returns=Int).applies = lambda env: False
+            VALIDATORS.append(_n)
+    for _sp in ("NO_SUCH_NAME", "COAX", "TRIPLEUTUBE", "", "near-square"):
+        _n = f"{V_}:{_vn}#body-unknown-name-{_sp or 'empty'}"
+        contract(f"{V_}:{_vn}", dict(instance=DictOf(**{_key: Const(_sp), "other_keys": OpaqueOf("json")})), name=_n,
+                 ensures=[("unknown-name-refused", lambda E: E.result == 1)], assigns=writes("instance[]"), returns=Int).applies = lambda env: False
+        VALIDATORS.append(_n)
+_n = f"{V_}:validate_schema_instance#body"
+contract(f"{V_}:validate_schema_instance", dict(schema_file_name=OpaqueOf("str"), instance=OpaqueOf("json"), error_msg=OpaqueOf("str")), name=_n,
+         ensures=[("verdict-is-zero-or-one", lambda E: Or(E.result == 0, E.result == 1)),
+                  ("zero-exactly-when-jsonschema-accepts-the-instance", lambda E: (E.result == 0) == E._schema_accepts)], returns=Int).applies = lambda env: False
+VALIDATORS.append(_n)
